@@ -506,6 +506,124 @@ Section Literal.
   Definition to_number_str (s : string) : outcome num := of_option (str_parse s).
 End Literal.
 
+(* ------------------------------------------------------------------ 3b'. literal conversion, repaired
+   fixes/C16-radix-literal-range.diff (F25): the 0x / 0b arms call
+
+     fn parse_radix_digits(digits: &str, radix: u32) -> Result<f64, &'static str> {
+         if digits.is_empty() { return Err("cannot parse integer from empty string"); }
+         let bits = radix.trailing_zeros();
+         let mut acc: u128 = 0;  let mut scale: f64 = 1.0;  let mut sticky = false;
+         for c in digits.chars() {
+             let d = c.to_digit(radix).ok_or("invalid digit found in string")?;
+             if acc >> (128 - bits) == 0 { acc = (acc << bits) | u128::from(d); }
+             else { sticky |= d != 0; scale *= f64::from(radix); }
+         }
+         Ok((acc | u128::from(sticky)) as f64 * scale)
+     }
+
+   instead of i64::from_str_radix, and then `sign * parsed`.  Transcribed step by step; which of the
+   two models the correspondence runs (radixfix) is decided on every run by probing the built harness. *)
+Fixpoint pos_trailing_zeros (p : positive) : Z :=
+  match p with xO q => 1 + pos_trailing_zeros q | _ => 0 end.
+Definition u32_trailing_zeros (z : Z) : Z := match z with Zpos p => pos_trailing_zeros p | _ => 32 end.
+Definition wrap_u128 (z : Z) : Z := z mod 2 ^ 128.             (* u128 `<<` discards the bits shifted out *)
+Definition Z_of_bool (b : bool) : Z := if b then 1 else 0.      (* u128::from(bool) *)
+
+(* the loop: Some (acc, scale, sticky) after the last digit, None at the first invalid digit *)
+Fixpoint radix_fold (radix bits : Z) (s : string) (acc : Z) (scale : num) (sticky : bool)
+  : option (Z * num * bool) :=
+  match s with
+  | EmptyString => Some (acc, scale, sticky)
+  | String c r =>
+      match radix_digit radix c with                           (* c.to_digit(radix) *)
+      | None => None
+      | Some d =>
+          if Z.shiftr acc (128 - bits) =? 0
+          then radix_fold radix bits r (Z.lor (wrap_u128 (Z.shiftl acc bits)) d) scale sticky
+          else radix_fold radix bits r acc (nmul scale (num_of_Z radix)) (sticky || negb (d =? 0))
+      end
+  end.
+Definition parse_radix_digits (digits : string) (radix : Z) : option num :=
+  if is_empty digits then None
+  else match radix_fold radix (u32_trailing_zeros radix) digits 0 n_one false with
+       | None => None
+       | Some (acc, scale, sticky) =>
+           Some (nmul (num_of_Z (Z.lor acc (Z_of_bool sticky))) scale)   (* (acc | sticky) as f64 * scale *)
+       end.
+
+Definition radix_literal_fixed (num_str : string) (mark : string) (radix : Z) : option num :=
+  let '(sign, digits) :=
+    match strip_prefix ("-" ++ mark) num_str with
+    | Some d => (n_mone, d)
+    | None => match strip_prefix ("+" ++ mark) num_str with
+              | Some d => (n_one, d)
+              | None => (n_one, drop 2 num_str)
+              end
+    end in
+  let cleaned := remove_char "_" digits in
+  match parse_radix_digits cleaned radix with
+  | None => None
+  | Some parsed => Some (nmul sign parsed)                     (* sign * parsed *)
+  end.
+
+Section LiteralRF.
+  Variable radixfix : bool.                        (* true: the tree carries the F25 repair *)
+  Variable str_parse : string -> option num.
+
+  Definition literal_value_rf (num_str : string) : option num :=
+    if radixfix then
+      if starts_with "0b" num_str || starts_with "-0b" num_str || starts_with "+0b" num_str then
+        radix_literal_fixed num_str "0b" 2
+      else if starts_with "0x" num_str || starts_with "-0x" num_str || starts_with "+0x" num_str then
+        radix_literal_fixed num_str "0x" 16
+      else str_parse (remove_char "_" num_str)
+    else literal_value str_parse num_str.
+
+  (* parse_numexpr_flat / parse_numexpr / read_source with the literal conversion of the tree at hand
+     (the grammar and the prefix-negation slice are untouched by the repair) *)
+  Definition parse_numexpr_flat_rf (src : string) : presult :=
+    let '(k, t) := count_neg src in
+    match t with
+    | EmptyString => match k with O => PUnmodelled | _ => PReject end
+    | String c _ =>
+        if is_digit c || Ascii.eqb c "+" || Ascii.eqb c "." then
+          match lex g_number t with
+          | None => PReject
+          | Some (tok, EmptyString) =>
+              match literal_value_rf tok with
+              | Some v => PExpr (negs k (ENum v))
+              | None => PLitErr
+              end
+          | Some (_, String c2 r2) =>
+              if ident_char c2 then PReject
+              else if Ascii.eqb c2 "." &&
+                      match r2 with EmptyString => true | String c3 _ => is_digit c3 end then PReject
+              else PUnmodelled
+          end
+        else PUnmodelled
+    end.
+  Definition parse_numexpr_rf (src : string) : presult :=
+    let '(k, t) := count_neg src in
+    match t with
+    | String "(" r =>
+        match split_last r with
+        | Some (inner, ")"%char) =>
+            match parse_numexpr_flat_rf inner with
+            | PExpr e => PExpr (negs k e)
+            | other => other
+            end
+        | _ => PUnmodelled
+        end
+    | _ => parse_numexpr_flat_rf src
+    end.
+  Definition read_source_rf (src : string) : outcome num :=
+    match parse_numexpr_rf src with
+    | PExpr e => eval_numexpr e
+    | PUnmodelled => Unmodelled
+    | _ => Err
+    end.
+End LiteralRF.
+
 (* ------------------------------------------------------------------ 3d. printing *)
 Definition c1e15 : num := num_of_Z (10 ^ 15).
 Section Printing.
@@ -683,6 +801,13 @@ Definition show_optnum (o : option num) : string :=
   match o with Some x => show_num x | None => "ERR"%string end.
 Definition show_presult (str_parse : string -> option num) (src : string) : string :=
   match parse_numexpr str_parse src with
+  | PReject => "REJECT"
+  | PLitErr => "LITERR"
+  | PUnmodelled => "UNMODELLED"
+  | PExpr e => show_onum (eval_numexpr e)
+  end%string.
+Definition show_presult_rf (radixfix : bool) (str_parse : string -> option num) (src : string) : string :=
+  match parse_numexpr_rf radixfix str_parse src with
   | PReject => "REJECT"
   | PLitErr => "LITERR"
   | PUnmodelled => "UNMODELLED"
